@@ -455,6 +455,14 @@ func DefaultExternals() map[string]externalFn {
 			}
 			return symInt{fr.i.freshVar("env:time.Until", 64, "env"), types.Int64}
 		},
+		// t.Sub(u) with a symbolic operand: arbitrary duration, for the same reason
+		"(time.Time).Sub": func(fr *frame, args []value) value {
+			if !containsSym(args[0]) && !containsSym(args[1]) {
+				fr.i.skipExternal = fr.fn
+				return callSSA(fr.i, fr.caller, token.NoPos, fr.fn, args, nil)
+			}
+			return symInt{fr.i.freshVar("env:time.Sub", 64, "env"), types.Int64}
+		},
 		"(*time.Location).get": func(fr *frame, args []value) value { return args[0] },
 		"time.NewTimer":        func(fr *frame, args []value) value { return fr.i.newTimer(fr.fn, "Timer") },
 		"time.NewTicker":       func(fr *frame, args []value) value { return fr.i.newTimer(fr.fn, "Ticker") },
